@@ -72,7 +72,7 @@ def probes():
     res = json.load(open(p))
     silent = sorted(n for n, r in res.items() if r["status"] == "silent")
     alarm = sorted((n, r) for n, r in res.items() if r["status"] != "silent")
-    rows = [f"Last recorded run (`tools/probe_all.py`, stored by `tools/probe_results.py`): **{len(silent)} of {len(res)}** patches silent under all 18 checks.", "", "Silent: " + ", ".join(silent) + ".", "", "| patch that still alarms | rule families that report it |", "|---|---|"]
+    rows = [f"Last recorded run (`tools/probe_all.py`, stored by `tools/probe_results.py`): **{len(silent)} of {len(res)}** patches silent (this run used the focus mode of the probe, `PV_PROBE_FOCUS=1`: per patch its own property's check, the checks of the properties sharing its files, and C17 / C18; the runs of earlier sessions used all 18 checks per patch).", "", "Silent: " + ", ".join(silent) + ".", "", "| patch that still alarms | rule families that report it |", "|---|---|"]
     for n, r in alarm:
         rows.append(f"| {n} | {', '.join(r['reports'])} |")
     return "\n".join(rows)
